@@ -24,7 +24,7 @@ ASSUMPTIONS = ["leading/trailing blanks of the whole filter and blanks around '=
                "standard and Athena SQL are not executed: texts are compared case-insensitively only"]
 
 FT = gen_typed.Fragment("common", funcs=gen_typed.STRING_FUNCS + ["year", "month", "day", "hour", "minute"],
-                        neg=False, bare_bool=False, null_left=True, dt_offsets="z")
+                        neg=False, bare_bool=False, null_left=True, dt_offsets="mixed")
 
 
 def mangle(t, r):
@@ -277,6 +277,30 @@ def run_task(task, seed, acc):
                 acc.case(key=digest(var), nontrivial=True, sample={"canonical": canon, "variant": var})
                 if r:
                     acc.fail(r[0], case, r[1])
+        # date-time literals: every zone form x every case assignment to T and Z, executed on the engines
+        rows = [dict(i1=1, i2=2, r1=0.5, s1="a", s2="b", b1=True, t1=g, d1="2020-01-01") for g in gen_typed.DT_GRID]
+        rows.append(dict(i1=None, i2=None, r1=None, s1=None, s2=None, b1=None, t1=None, d1=None))
+        for base in (gen_typed.DT_GRID[1], gen_typed.DT_GRID[2]):
+            for tail in ("Z", "", "+01:00", "-05:30", "+00:00", ".5Z", ".25", ".125-03:00"):
+                for op in ("lt", "ge", "eq"):
+                    for pre in ("t1 %s %%s" % op, "%%s %s t1" % op, "t1 in (%s)", "not (t1 ne %s)", "year(%s) eq year(t1)"):
+                        canon_text = pre % (base + tail)
+                        try:
+                            t = decode(lib.parse(canon_text))
+                        except Exception:
+                            continue
+                        canon = printer.render(t)
+                        lit = base + tail
+                        if lit not in canon:
+                            continue
+                        for v in {lit.replace("T", "t"), lit.replace("Z", "z"), lit.replace("T", "t").replace("Z", "z")} - {lit}:
+                            var = canon.replace(lit, v)
+                            case = {"term": to_json(t), "seed": 0, "variant": var, "rows": rows}
+                            r = check_case(case)
+                            acc.case(key=digest(var), nontrivial=True, sample={"canonical": canon, "variant": var})
+                            acc.cls("datetime_case_executed")
+                            if r:
+                                acc.fail(r[0], case, r[1])
         acc.extra["exhaustive"] = True
         return
     if task["kind"] == "syn":
